@@ -4,7 +4,7 @@ from props.util import *
 rule = ("for each of the 22 indicators and periods 1..4 (plus sampled larger): slot 0 is fed a stream of user-struct bars whose five fields "
         "vary independently (not only consistent OHLC; grids with ties; occasional -0.0); slot 1 is fed, in lock-step, the documented "
         "scalar field (close / low / high) where a scalar path exists; slot 2 the same bars with every field the indicator is not "
-        "documented to read replaced by unrelated values; slot 3 DataItems carrying the same numbers (valid bars only). For FastStochastic, "
+        "documented to read replaced by unrelated values; slot 3 DataItems carrying the same numbers (built by the builder for valid bars, obtained by deserialising the five numbers for inconsistent ones). For FastStochastic, "
         "SlowStochastic, TrueRange, ATR and KeltnerChannel a second family feeds one-price bars (o=h=l=c=x) against the scalar path on x. "
         "Non-trivial: distinct case with at least period+1 bars whose fields are not all equal")
 assumptions = ["the quantifier over user types implementing the price traits is covered by a struct of five independent numbers; an impl with side effects is outside the model"]
@@ -46,6 +46,9 @@ def gen_cases(ctx):
                     ops.append(("b", 2) + b2)
                     if style in ("walk", "segments", "gaps", "tinybars"):
                         ops.append(("i", 3) + b)
+                    elif style == "free":
+                        # inconsistent numbers reach a DataItem only through deserialisation (the builder rejects them)
+                        ops.append(("j", 3) + b)
                 cases.append(Case("%s_g%d_%s_%d" % (ind, gi, style, len(cases)), ops, dump=(0, 2),
                                   meta={"ind": ind, "params": pr[:3], "style": style, "n": n, "fam": "fields"}))
     for ind in ONEPRICE:
